@@ -398,6 +398,77 @@ func widePatternSet(r *rand.Rand) []string {
 	return ps
 }
 
+// a dense trie: 20-60 of the words of length 2..4 over 2-4 letters.  More than 20 nodes sit in the BFS frontier at once (the
+// queue grows 10 -> 20 -> 40, the second time from an order that an earlier wrapped growth produced) and almost every
+// node has a proper suffix in the trie.
+func densePatternSet(r *rand.Rand) ([]string, []string) {
+	k := 2 + r.Intn(3)
+	letters := []string{"a", "b", "c", "d"}[:k]
+	var all []string
+	var gen func(prefix string, l int)
+	gen = func(prefix string, l int) {
+		if l == 0 {
+			all = append(all, prefix)
+			return
+		}
+		for _, c := range letters {
+			gen(prefix+c, l-1)
+		}
+	}
+	for l := 2; l <= 4; l++ {
+		if k == 4 && l == 4 {
+			break
+		}
+		gen("", l)
+	}
+	r.Shuffle(len(all), func(i, j int) { all[i], all[j] = all[j], all[i] })
+	n := 20 + r.Intn(41)
+	if n > len(all) {
+		n = len(all)
+	}
+	return all[:n], letters
+}
+
+// many irregular patterns: 20-45 random words of length 2..6 over 2-4 letters (irregular depth, wide frontier)
+func manyPatternSet(r *rand.Rand) ([]string, []string) {
+	k := 2 + r.Intn(3)
+	letters := []string{"a", "b", "c", "d"}[:k]
+	n := 20 + r.Intn(26)
+	seen := map[string]bool{}
+	var ps []string
+	for len(ps) < n {
+		w := randWord(r, letters, 2, 6)
+		if !seen[w] {
+			seen[w] = true
+			ps = append(ps, w)
+		}
+	}
+	return ps, letters
+}
+
+// two batches for a rebuild: the second batch extends proper suffixes / infixes of patterns of the first one, so that
+// failure links computed by the first BuildFailureLinks must change in the second
+func rebuildBatches(r *rand.Rand, units []string) ([]string, []string) {
+	first := randPatternSet(r, units, 5, 5)
+	var second []string
+	for len(second) < 1+r.Intn(4) {
+		p := first[r.Intn(len(first))]
+		u := splitUnits(p, units)
+		if len(u) < 2 {
+			second = append(second, randWord(r, units, 1, 3))
+			continue
+		}
+		i := 1 + r.Intn(len(u)-1)           // a proper suffix start
+		j := i + 1 + r.Intn(len(u)-i)       // infix end
+		w := strings.Join(u[i:j], "")
+		if r.Intn(2) == 0 {
+			w += randWord(r, units, 1, 2) // extension of the suffix/infix
+		}
+		second = append(second, w)
+	}
+	return first, second
+}
+
 func anyOccurs(ps []string, text string) bool {
 	for _, p := range ps {
 		if p != "" && strings.Contains(text, p) {
